@@ -2,7 +2,7 @@
    triples are valid.  Only statements closed by [exact], each followed by
    Print Assumptions. *)
 From Coq Require Import NArith List Bool Arith.
-From Mpc Require Import Base.Codec Circuit.Circuit Gmw.Gmw Gmw.Pool Gmw.GmwProof.
+From Mpc Require Import Base.Codec Circuit.Circuit Gmw.Gmw Gmw.Pool Gmw.GmwProof Gmw.PoolSync Gmw.PoolSyncProof.
 Import ListNotations.
 Local Open Scope nat_scope.
 
@@ -93,3 +93,47 @@ Theorem C10_dealt_run_correct :
                  forall o, In o outs -> o = eval_plain c (concat inputs).
 Proof. exact dealt_run_correct. Qed.
 Print Assumptions C10_dealt_run_correct.
+
+(* (5) The producer/consumer protocol of the triple pool (PoolSync.v: Get and
+   the generator loop as small-step system over the one condition variable).
+   For every low-water mark, all batch sizes and every reachable state (any
+   interleaving of consumer and generator critical sections, any sequence of
+   Get(n) calls, n arbitrary — also larger than the pool can ever hold):
+   whenever the consumer is parked in Get, its request is unsatisfied (n > 0)
+   and the generator is NOT parked without a pending Signal.  Instances:
+   lwm = go_lwm (gmw_lowWaterMark from Gen/Consts.v), bsz = go_bsz. *)
+Theorem C10_pool_no_lost_wakeup :
+  forall (lwm : nat) (bsz : nat -> nat) (s : pst),
+    reachable lwm bsz false s ->
+    forall n, cst s = CWaiting n -> 0 < n /\ gst s <> GWaiting.
+Proof. exact no_lost_wakeup. Qed.
+Print Assumptions C10_pool_no_lost_wakeup.
+
+(* hence some goroutine can always run while a request is outstanding *)
+Theorem C10_pool_deadlock_free :
+  forall (lwm : nat) (bsz : nat -> nat) (s : pst),
+    reachable lwm bsz false s -> cst s <> CIdle ->
+    exists s', cons_step lwm false s = Some s' \/ gen_step lwm bsz s = Some s'.
+Proof. exact deadlock_free. Qed.
+Print Assumptions C10_pool_deadlock_free.
+
+(* and under the round-robin (fair) schedule every Get(n), from every
+   reachable state and for every n, returns within 3*n rounds, provided every
+   batch has at least one word *)
+Theorem C10_pool_get_completes :
+  forall (lwm : nat) (bsz : nat -> nat), (forall k, 1 <= bsz k) ->
+  forall s, reachable lwm bsz false s ->
+    exists k, k <= 3 * need_of (cst s) /\ cst (run_rr lwm bsz false k s) = CIdle.
+Proof. exact get_completes. Qed.
+Print Assumptions C10_pool_get_completes.
+
+(* Regression record: with the Signal hoisted out of the chunk loop (issued
+   once after the whole request) and the constants of the Go code, a
+   reachable state has the consumer parked on an unsatisfied request AND the
+   generator parked with no Signal pending: after the pool has filled
+   (4160 words) a Get of 4219 words hangs. *)
+Theorem C10_pool_no_lost_wakeup_hoisted_refuted :
+  exists s, reachable go_lwm go_bsz true s /\ lost_wakeup s = true /\
+            cst s = CWaiting 59 /\ gst s = GWaiting /\ words s = 0.
+Proof. exact pool_no_lost_wakeup_hoisted_refuted. Qed.
+Print Assumptions C10_pool_no_lost_wakeup_hoisted_refuted.
